@@ -400,6 +400,35 @@ theorem lin_recovers_var [Field K] (cs : List (QM.C08.Coeff K)) (A : Mat K m n) 
   rw [hfe]
   exact est_exact G A b var0 hc
 
+/-- C09.8a' end-to-end with numpy's INEXACT inverse: same hypotheses as `lin_recovers_var`, the exact contract replaced
+by the accepted certificate `invCert G A δ` (what the driver checks on the float inverse): the linear estimate is `var₀`
+up to `δ·‖var₀‖₁` in every component. -/
+theorem lin_recovers_var_approx [Field K] [LinearOrder K] [IsStrictOrderedRing K] [DecidableLE K]
+    (cs : List (QM.C08.Coeff K)) (A : Mat K m n) (b : Vec K m) (G : Mat K n n) (δ : K)
+    (hA : rowsOf A = QM.C08.matA cs) (hb : b.toList = QM.C08.vecB cs) (hc : invCert G A δ = true)
+    (var0 : Vec K n) (f : Vec K m) (hf : f.toList = QM.C08.predictRaw cs var0.toList) (i : Fin n) :
+    |(estOne (aDdag G A) b f).get i - var0.get i| ≤ δ * ∑ j, |var0.get j| := by
+  have hfe : f = (A.mulVec var0).add b := by
+    apply Vector.toList_inj.1
+    rw [hf, forward_toList cs A b hA hb var0]
+  rw [hfe]
+  exact (invCert_sound G A b δ hc).1 var0 i
+
+/-- C09.8b' the same through the circuit (conclusion of any C08 `*_affine` theorem as hypothesis): data = circuit
+distributions of the object built from `var₀` ⇒ estimate within `δ·‖var₀‖₁` of `var₀`. -/
+theorem lin_recovers_from_circuit_approx [Field K] [LinearOrder K] [IsStrictOrderedRing K] [DecidableLE K]
+    (per : List (List (List K × K))) (A : Mat K m n) (b : Vec K m) (G : Mat K n n) (δ : K)
+    (hA : rowsOf A = QM.C08.matA (QM.C08.mkCoeffs per)) (hb : b.toList = QM.C08.vecB (QM.C08.mkCoeffs per))
+    (hc : invCert G A δ = true) (var0 : Vec K n) (circuit : Option (List (List K))) (dists : List (List K))
+    (haff : circuit = some (per.map fun rows => rows.map (QM.C08.rowVal var0.toList)))
+    (hd : circuit = some dists) (f : Vec K m) (hf : f.toList = dists.flatten) (i : Fin n) :
+    |(estOne (aDdag G A) b f).get i - var0.get i| ≤ δ * ∑ j, |var0.get j| := by
+  apply lin_recovers_var_approx (QM.C08.mkCoeffs per) A b G δ hA hb hc var0 f
+  rw [hf, QM.C08.predictRaw_mkCoeffs]
+  rw [haff] at hd
+  injection hd with hd
+  rw [← hd]
+
 /-- C09.8b end-to-end through the circuit: if the dictionary entries predict the circuits of all schedules on the
 object built from `var₀` (conclusion of `QM.C08.qst_affine / povmt_affine / qpt_affine / qmpt_affine`) and the data
 are exactly those circuit distributions, concatenated in schedule order, the linear estimate is `var₀` — the
@@ -638,5 +667,9 @@ example : invCert (#v[#v[2/3 + 1/1000, -1/3], #v[-1/3, 2/3]] : Mat Rat 2 2)
 /-- the wide matrix `[[1, 1]]` passes the guard (rank 1) and numpy's inverse raises: `singular`, also without data -/
 example : estSeqInv 1 (none : Option (Mat Rat 2 2)) (#v[#v[1, 1]] : Mat Rat 1 2) (#v[1/2] : Vec Rat 1) [] =
     .error .singular := by decide +kernel
+
+/-- hypotheses of `lin_recovers_var_approx` on the toy QST: an inverse that is off by 1/1000 is certified at `δ = 1/100` -/
+example : invCert (#v[#v[1 + 1/1000, -1], #v[-1, 2]] : Mat Rat 2 2) (#v[#v[1, 0], #v[1, 1]] : Mat Rat 2 2) (1/100) = true := by
+  decide +kernel
 
 end QM.C09
